@@ -228,7 +228,7 @@ func runCal(dir string, emit func(interface{}), conc0 *xmlt.Conc, mod, rem int) 
 			if rerr != nil {
 				cev["wf"] = false
 			} else {
-				cev["doc"] = []xmlt.Node{doc}
+				cev["doc"] = []xmlt.Node{emptyTexts(doc, conc)}
 			}
 		}
 		emit(cev)
